@@ -21,7 +21,7 @@ chk("C04", "exploration",
     "Trusted: the physical resolver and reference interpreter in /verif/sim/model. One open known finding (dotdot-after-link) is suppressed by mechanism only.",
     "deterministic simulation: seeded entry histories + reader faults, physical link-resolution invariant after every operation", "5 C04")
 chk("C15", "exploration",
-    "Well-formed entry sequences (index-decoded short family plus seeded longer ones, three tar formats, both uids, four umasks, multi-archive histories) are unpacked by the real code and dst is compared node by node with a sequential reference interpreter.",
+    "Well-formed entry sequences (index-decoded short family plus seeded longer ones, three tar formats, both uids, four umasks, multi-archive histories) are unpacked by the real code and dst is compared node by node with a sequential reference interpreter. An entry for the archive's top directory prescribes the destination's own mode and mtime. Directory modes include ones without the owner search bit (unprivileged runs), times include the epoch, pre-1970 and post-2038 values.",
     "Well-formed = accepted by the reference interpreter; what the archive says = what Go's tar reader decodes; type-changing repeats excluded as unspecified.",
     "deterministic simulation: operation-sequence vs sequential reference model, privilege/umask configurations", "5 C15")
 
@@ -30,15 +30,15 @@ chk("C02", "exploration",
     "Directories touched by an ignore rule are not compared (the statement fixes files). Unprivileged runs use only modes readable by the uid. linux/amd64: link times are not restored and not compared.",
     "deterministic simulation: Pack||Unpack tasks over a simulated pipe under seeded schedules, round-trip vs generated model tree", "5 C02")
 chk("C03", "exploration",
-    "Rule files from the documented grammar and trees built from the same segment names are packed with ignore on/off, after in-process histories (rule files beginning with a negation, other options) and repeatedly; the shipped file/link set is compared both ways with an independent segment-wise matcher, also for files copied from dereferenced directories (judged at their archive path). The bundle builder's consumer of the same rules is checked in the bundle world against the same matcher.",
-    "Strict oracle on files and links only. The grammar avoids the '**' corners the statement leaves undefined, brackets and backslashes.",
+    "Rule files from the documented grammar and trees built from the same segment names are packed with ignore on/off, after in-process histories (rule files beginning with a negation, other options) and repeatedly; the shipped file/link set is compared both ways with an independent segment-wise matcher, also for files copied from dereferenced directories (judged at their archive path). The bundle builder's consumer of the same rules is checked in the bundle world against the same matcher. One unusable line (a character class that is never closed) may stand among ordinary rules; the reference matcher skips just that line.",
+    "Strict oracle on files and links only. The grammar avoids the '**' corners the statement leaves undefined, closed bracket expressions and backslashes; file names may contain backslashes, tabs, newlines and bytes that are not UTF-8, but such names are not put into rules.",
     "deterministic simulation: history-dependent workload (shared package-level rule state) + differential check against independent reference matcher", "5 C03")
 chk("C05", "exploration",
     "Trees with in-tree, absolute, out-of-tree, sibling-prefix, chained, dangling and back-pointing links are packed under generated options; provenance tokens prove no outside content leaks, link entries are resolved at their archive position, refusals must be illegal-slug errors without Meta, and slugs from all-relative trees are fed to the real Unpack in the same run.",
     "Thin simulation dimension (device chunking, Pack output fed to Unpack in one run); mostly seeded generation against oracles, stated as such.",
     "deterministic simulation: seeded link-topology workload with provenance-token and archive-position oracles; Pack output replayed into Unpack", "5 C05")
 chk("C16", "exploration",
-    "One tree and option set is packed 2-5 times under varied spellings, working directories and in-process histories, and in a third of the runs as concurrent Pack tasks plus a Chdir task whose interleaving at writer yields is decided by the schedule tape; all decoded entry lists must be identical and equal to the model list. One open known finding (root symlink with relative target) is suppressed by mechanism only.",
+    "One tree and option set is packed 2-5 times under varied spellings, working directories and in-process histories, and in a third of the runs as concurrent Pack tasks plus a Chdir task whose interleaving at writer yields is decided by the schedule tape; all decoded entry lists must be identical and equal to the model list. One open known finding (root symlink with relative target) is suppressed by mechanism only. Every scenario with a history is also executed without it in a fresh worker process, whose per-run output digests the runs after the history must equal (state left behind process-wide shows even when all later runs see it).",
     "Interleaving granularity is the writer call (gzip buffers; small trees yield rarely); data races inside Pack are outside what the cooperative scheduler can see.",
     "deterministic simulation: seeded scheduler over concurrent Pack and Chdir tasks, history and configuration search, output-equality invariant", "5 C16")
 chk("C20", "exploration",
@@ -46,7 +46,7 @@ chk("C20", "exploration",
     "Thin simulation dimension; claimed because the invariant is evaluated on all simulated runs at no extra cost.",
     "deterministic simulation runs with decoded-slug accounting invariant", "5 C20")
 chk("C12", "fault_enumeration",
-    "Single-fault spaces are swept per seeded base scenario: every compressed-byte offset of the reader x 4 fault kinds for Unpack, every writer call and strided byte offsets x kinds for Pack, every peer call x kinds for a build (plus crash points at every callback boundary and every torn manifest prefix); oracles as stated in DESIGN.md C12, the poisoned-builder history checked with porcupine.",
+    "Single-fault spaces are swept per seeded base scenario: every compressed-byte offset of the reader x 4 fault kinds for Unpack, every writer call and strided byte offsets x kinds for Pack, every peer call x kinds for a build (plus crash points at every callback boundary and every torn manifest prefix); oracles as stated in DESIGN.md C12, the poisoned-builder history checked with porcupine. Fault-free sequences of 1-3 archives into one, possibly populated, destination check that a nil return has materialised every link entry.",
     "Bases and fault pairs are sampled; syscall-level faults are not injected; crash = process death with completed syscalls durable.",
     "fault enumeration over simulated devices and peers (deterministic simulation), porcupine history check for the poisoned builder", "5 C12")
 chk("C19", "exploration",
@@ -59,7 +59,7 @@ chk("C08", "exploration",
     "World addresses are canonical by construction (asserted at run time). Finder stubs read their declarations from the fetched files. Directory existence is only demanded where no ignore rule touches the path.",
     "deterministic simulation: multi-party build against simulated peers under seeded schedules, closure/lookup oracle vs reference model", "5 C08")
 chk("C09", "exploration",
-    "After each successful simulated build the generated post-operations 'reopen' (restart with only the directory surviving; also a relative spelling from another cwd) and 'ship' (WriteArchive and ExtractArchive as two scheduled tasks over a bounded SimPipe) run; the full accessor fingerprint and the directory trees must equal those of the bundle returned by Close.",
+    "After each successful simulated build the generated post-operations 'reopen' (restart with only the directory surviving; also a relative spelling from another cwd) and 'ship' (WriteArchive and ExtractArchive as two scheduled tasks over a bounded SimPipe) run; the full accessor fingerprint and the directory trees must equal those of the bundle returned by Close. The bundle is also re-opened, and the archive extracted, by way of a symlink to the directory (answers relative to the root as spelled, reverse lookups included), and after a broken pipe the hand-over is tried again over a healthy one.",
     "Same platform on both sides; mtimes compared after rounding to the second as the archive format does.",
     "deterministic simulation: restart and streamed hand-over (two tasks over a simulated pipe) as generated operations, fingerprint/tree equality", "5 C09")
 chk("C10", "exploration",
@@ -71,7 +71,7 @@ chk("C13", "exploration",
     "The cooperative scheduler cuts only at yield points; races inside a critical section are out of reach. Map-order sensitivity is probed by identical re-runs (probabilistic).",
     "deterministic simulation: seeded scheduler over concurrent Add tasks via mutex hook, permutation of histories, output-equality invariant", "5 C13")
 chk("C14", "exploration",
-    "Over the peers' call log and the tracer's history of each fault-free simulated build: one fetch per distinct package of the reference closure, one version-list and one source-address request per registry package/selected version, one analysis per (source, finder) pair, strict start/success|failure bracketing, 'already' only after success, and a step bound computed from the model; the index-decoded 'small' family walks <=3 packages x <=2 locations x edge subsets in order.",
+    "Over the peers' call log and the tracer's history of each fault-free simulated build: one fetch per distinct package of the reference closure, one version-list and one source-address request per registry package/selected version, one analysis per (source, finder) pair, strict start/success|failure bracketing, 'already' only after success, and a step bound computed from the model; the index-decoded 'small' family walks <=3 packages x <=2 locations x edge subsets in order. Builds that must refuse a fetched tree are included: the trace clauses hold there too.",
     "Analyses are keyed by (package directory, sub-path, finder); coalesced twins share a key.",
     "deterministic simulation: exactly-once and bounded-steps checks over recorded peer-call and trace histories, scheduler deadlock detection", "5 C14")
 chk("C17", "exploration",
